@@ -259,8 +259,13 @@ class SmtLibScript(object):
             raise PysmtValueError("Was expecting exactly one check-sat command")
         _And = mgr.And if mgr else get_env().formula_manager.And
 
-        assertions = [cmd.args[0]
-                      for cmd in self.filter_by_command_name([smtcmd.ASSERT])]
+        assertions = []
+        for cmd in self.commands:
+            if cmd.name == smtcmd.ASSERT:
+                assertions.append(cmd.args[0])
+            elif cmd.name in (smtcmd.RESET_ASSERTIONS, smtcmd.RESET):
+                # The assertions made so far are removed
+                assertions = []
         return _And(assertions)
 
     def get_declared_symbols(self) -> Set[FNode]:
@@ -296,7 +301,7 @@ class SmtLibScript(object):
         for cmd in self.commands:
             if cmd.name == smtcmd.ASSERT:
                 stack.append(cmd.args[0])
-            if cmd.name == smtcmd.RESET_ASSERTIONS:
+            if cmd.name in (smtcmd.RESET_ASSERTIONS, smtcmd.RESET):
                 stack = []
                 backtrack = []
                 goals = []
